@@ -5,18 +5,23 @@ import json, os, re, subprocess, sys, time
 VERIF = os.path.dirname(os.path.dirname(os.path.abspath(__file__)))
 sys.path.insert(0, VERIF)
 from lib import props
-want = sys.argv[1:]
+want = [a for a in sys.argv[1:] if not a.startswith('--')]
+skip_done = '--skip-done' in sys.argv
+done = set()
+if skip_done and os.path.exists(os.path.join(VERIF, 'seeded', 'results.jsonl')):
+    done = {json.loads(l)['seed'] for l in open(os.path.join(VERIF, 'seeded', 'results.jsonl'))}
 for sid in sorted(os.listdir(os.path.join(VERIF, 'seeded'))):
     d = os.path.join(VERIF, 'seeded', sid)
     if not os.path.isdir(d) or not os.path.exists(os.path.join(d, 'patch.diff')): continue
-    if want and not any(sid.startswith(w) for w in want): continue
+    if want and not any(sid.startswith(w) or w in sid for w in want): continue
+    if sid in done: continue
     prop = sid.split('-')[0]
     meta = {}
     if os.path.exists(os.path.join(d, 'meta.json')): meta = json.load(open(os.path.join(d, 'meta.json')))
     targets = meta.get('run_against') or [prop]
     targets = [t for t in targets if t in props.SPECS]
     if not targets: print(sid, 'no check yet'); continue
-    r = subprocess.run([os.path.join(VERIF, 'tools', 'mutant.py'), os.path.join(d, 'patch.diff')] + targets, stdout=subprocess.PIPE, stderr=subprocess.STDOUT, text=True)
+    r = subprocess.run([os.path.join(VERIF, 'tools', 'mutant.py'), '--persist', os.path.join(d, 'patch.diff')] + targets, stdout=subprocess.PIPE, stderr=subprocess.STDOUT, text=True)
     out = [l for l in r.stdout.splitlines() if not l.startswith('WARNING')]
     print(sid, ' | '.join(l.strip() for l in out if re.match(r'^C\d+ ', l)))
     with open(os.path.join(VERIF, 'seeded', 'results.jsonl'), 'a') as f:
